@@ -1378,6 +1378,16 @@ impl Conn {
 				} else {
 					(0..n.max(1)).map(|_| self.rng.gen()).collect()
 				};
+				// the stream must really differ AT `off` (the logged position): an inserted first byte equal
+				// to the byte it displaces would be an insertion one byte later
+				let mut bytes = bytes;
+				if idx < dir.inflight.len() && bytes[0] == dir.inflight[idx] {
+					if kind == "replay" {
+						self.stats.skipped += 1;
+						return;
+					}
+					bytes[0] ^= 0x55;
+				}
 				inserted = bytes.len();
 				let tail: Vec<u8> = dir.inflight.drain(idx..).collect();
 				dir.inflight.extend(bytes);
